@@ -228,7 +228,8 @@ def write_replay(pid: str, plan: dict, rec: dict, dig: str, tier: str) -> str:
     os.makedirs(os.path.join(VERIF, "replays"), exist_ok=True)
     path = os.path.join(VERIF, "replays", f"{pid}-{plan.get('run_seed', 0)}.json")
     doc = {"format": 1, "property": pid, "run_seed": plan.get("run_seed"), "tier": tier, "plan": plan,
-           "violation": rec, "digest": dig, "repo": repo_state()}
+           "violation": rec, "digest": dig, "repo": repo_state(),
+           "hashseed": os.environ.get("PYTHONHASHSEED", "")}
     with open(path, "w") as dst:
         json.dump(doc, dst, indent=1, sort_keys=True, default=core._default)
     return path
@@ -416,7 +417,7 @@ def run_batch(pid: str, tier: str, verif_seed: int, runs: Optional[int], workers
             rec = next((r for r in result["violations"] if core.vclass(r) == key), info["rec"])
             path = write_replay(pid, plan, rec, result["digest"], tier)
             # fresh-interpreter confirmation under another hash seed
-            env = dict(os.environ, PYTHONHASHSEED=str((int(os.environ.get("PYTHONHASHSEED", "0") or 0) + 1) % 4294967295), VERIF_NO_REEXEC="1")
+            env = {k: v for k, v in os.environ.items() if k not in ("PYTHONHASHSEED", "VERIF_NO_REEXEC")}
             proc = subprocess.run([sys.executable, os.path.join(VERIF, "check"), pid, "--replay", path], capture_output=True, text=True, env=env, timeout=900)
             ok = proc.returncode == 1 and f"REPLAY-DIGEST {result['digest']}" in proc.stdout
             if not ok:
